@@ -4,6 +4,9 @@ Property theorems only; the model is `Model/Hls.lean` instantiated with the fact
 from /repo (`Model/HlsInst.lean`); helper lemmas live in `Lemmas/Hls*.lean`.
 -/
 import IpcHub.Lemmas.Hls
+import IpcHub.Lemmas.HlsFrames
+import IpcHub.Lemmas.HlsKey
+import IpcHub.Lemmas.HlsStore
 import IpcHub.Model.HlsInst
 namespace IpcHub.Props.C10
 open IpcHub.Ts IpcHub.Hls IpcHub.HlsLemmas
@@ -73,6 +76,144 @@ theorem c10_segment_resolves (pl : List Seg) :
     (∀ s ∈ pl, ∃ s' ∈ pl, s'.seq = s.seq ∧ segment genCfg pl s.seq = some (writeStream genCfg.ts s'.frames))
     ∧ (∀ q, (∀ s ∈ pl, s.seq ≠ q) → segment genCfg pl q = none) :=
   ⟨fun s hs => segment_of_mem genCfg pl s hs, fun q h => segment_none genCfg pl q h⟩
+
+/-- Exactly once, for EVERY frame sequence, audio rate and every fragment length of at least one
+    second (config.HlsFragment clamps to ≥ 5): whenever the generator has not panicked,
+    * no segment was ever dropped (the "< 100 ms, reuse the number" branch of segmentClose is
+      unreachable: a segment is only closed after it lasted a whole fragment);
+    * the video frames in the segments — deleted ones, listed ones, the open one, in order of
+      sequence number — are exactly the source video frames (non-empty payload), in order, each
+      once;
+    * the audio elementary stream in the segments followed by what waits in the audio cache is
+      exactly the concatenation of (ADTS header ++ AAC frame) over the source audio frames: no
+      audio frame is lost, duplicated or reordered by the caching and re-framing. -/
+theorem c10_exactly_once (frag rate : Nat) (hfrag : 1 ≤ frag) (fs : List Frame) (g : Gen)
+    (h : Hls.writeFrames genCfg frag rate init fs = some g) :
+    g.dropped = []
+    ∧ videoOf genCfg (written g) = srcVideo genCfg fs
+    ∧ audioEs genCfg (written g) ++ cacheEs g = srcAudioEs genCfg fs := by
+  have := writeFrames_cons genCfg frag rate hfrag (by decide) fs init g [] [] (cons_init genCfg) h
+  obtain ⟨h1, _, h3, h4, _⟩ := this
+  exact ⟨h1, by simpa using h3, by simpa using h4⟩
+
+/-- Why the fragment length matters: with hlsFragment = 0 (which only a caller bypassing
+    config.HlsFragment can pass) every key frame reaps, a GOP shorter than 100 ms is closed below
+    the minimum duration, its segment is deleted and its frames are lost.  -/
+theorem c10_short_segment_dropped_when_frag_zero :
+    ∃ g, Hls.writeFrames genCfg 0 8000 init
+      [ { pid := 256, streamId := 0xe0, dts := 0, pts := 0, header := [0,0,0,1], payload := [0x65, 1], key := true },
+        { pid := 256, streamId := 0xe0, dts := 3000, pts := 3000, header := [0,0,0,1], payload := [0x65, 2], key := true },
+        { pid := 256, streamId := 0xe0, dts := 6000, pts := 6000, header := [0,0,0,1], payload := [0x65, 3], key := true } ] = some g
+    ∧ g.dropped.length = 3 ∧ (videoOf genCfg (written g)).length = 1 := ⟨_, rfl, by decide, by decide⟩
+
+/-- the stream of `c10_audio_reap_witness`: one key frame, then a GOP of more than two seconds with
+    8 kHz AAC frames every 128 ms -/
+def longGopStream : List Frame :=
+  [ { pid := 256, streamId := 0xe0, dts := 0, pts := 0, header := [0,0,1], payload := [0x65, 1], key := true },
+    { pid := 257, streamId := 0xc0, dts := 300, pts := 300, header := [0xff,0xf1], payload := [0], key := false },
+    { pid := 257, streamId := 0xc0, dts := 11820, pts := 11820, header := [0xff,0xf1], payload := [1], key := false },
+    { pid := 257, streamId := 0xc0, dts := 23340, pts := 23340, header := [0xff,0xf1], payload := [2], key := false },
+    { pid := 257, streamId := 0xc0, dts := 34860, pts := 34860, header := [0xff,0xf1], payload := [3], key := false },
+    { pid := 257, streamId := 0xc0, dts := 46380, pts := 46380, header := [0xff,0xf1], payload := [4], key := false },
+    { pid := 257, streamId := 0xc0, dts := 57900, pts := 57900, header := [0xff,0xf1], payload := [5], key := false },
+    { pid := 256, streamId := 0xe0, dts := 60000, pts := 60000, header := [0,0,1], payload := [0x41, 2], key := false },
+    { pid := 257, streamId := 0xc0, dts := 69420, pts := 69420, header := [0xff,0xf1], payload := [6], key := false },
+    { pid := 257, streamId := 0xc0, dts := 80940, pts := 80940, header := [0xff,0xf1], payload := [7], key := false },
+    { pid := 257, streamId := 0xc0, dts := 92460, pts := 92460, header := [0xff,0xf1], payload := [8], key := false },
+    { pid := 257, streamId := 0xc0, dts := 103980, pts := 103980, header := [0xff,0xf1], payload := [9], key := false },
+    { pid := 257, streamId := 0xc0, dts := 115500, pts := 115500, header := [0xff,0xf1], payload := [10], key := false },
+    { pid := 256, streamId := 0xe0, dts := 120000, pts := 120000, header := [0,0,1], payload := [0x41, 3], key := false },
+    { pid := 257, streamId := 0xc0, dts := 127020, pts := 127020, header := [0xff,0xf1], payload := [11], key := false },
+    { pid := 257, streamId := 0xc0, dts := 138540, pts := 138540, header := [0xff,0xf1], payload := [12], key := false },
+    { pid := 257, streamId := 0xc0, dts := 150060, pts := 150060, header := [0xff,0xf1], payload := [13], key := false },
+    { pid := 257, streamId := 0xc0, dts := 161580, pts := 161580, header := [0xff,0xf1], payload := [14], key := false },
+    { pid := 257, streamId := 0xc0, dts := 173100, pts := 173100, header := [0xff,0xf1], payload := [15], key := false },
+    { pid := 257, streamId := 0xc0, dts := 184620, pts := 184620, header := [0xff,0xf1], payload := [16], key := false },
+    { pid := 256, streamId := 0xe0, dts := 185000, pts := 185000, header := [0,0,1], payload := [0x41, 4], key := false },
+    { pid := 257, streamId := 0xc0, dts := 196140, pts := 196140, header := [0xff,0xf1], payload := [17], key := false },
+    { pid := 257, streamId := 0xc0, dts := 207660, pts := 207660, header := [0xff,0xf1], payload := [18], key := false },
+    { pid := 257, streamId := 0xc0, dts := 219180, pts := 219180, header := [0xff,0xf1], payload := [19], key := false },
+    { pid := 256, streamId := 0xe0, dts := 225000, pts := 225000, header := [0,0,1], payload := [0x41, 5], key := false },
+    { pid := 257, streamId := 0xc0, dts := 230700, pts := 230700, header := [0xff,0xf1], payload := [20], key := false } ]
+
+/-- Key-frame start, partial.  Full statement (FALSE, see the witness below): "every segment
+    after the first begins its video with a key frame".  Proved, for EVERY frame sequence,
+    fragment length and audio rate: every segment — deleted, listed or open — that is not the
+    very first one and was NOT opened by the audio-side reap (`isSegmentAbsolutelyOverflow`,
+    duration ≥ 2 × fragment seen from an audio frame) contains video and its first video frame
+    is a key frame (which, by C09 `c09_annexb`, carries AUD + SPS + PPS in front of the IDR
+    slice).  Excluded: exactly the segments with the ghost flag `byAudio` (open known finding
+    `segment-not-starting-with-key:audio-side-reap`). -/
+theorem c10_starts_with_key_partial (frag rate : Nat) (fs : List Frame) (g : Gen)
+    (h : Hls.writeFrames genCfg frag rate init fs = some g) :
+    ∀ s ∈ g.deleted ++ g.playlist ++ g.current.toList, s.byAudio = false → s.seqHdr = false →
+      ∃ v rest, videoOf genCfg s.frames = v :: rest ∧ v.key = true := by
+  obtain ⟨hcl, ⟨s0, hs0, hk0⟩, _⟩ := writeFrames_key genCfg frag rate fs init g (keyInv_init genCfg) h
+  intro s hs
+  rcases List.mem_append.mp hs with hs | hs
+  · exact hcl s hs
+  · rw [hs0] at hs; simp at hs; subst hs; exact hk0
+
+/-- The excluded case is real: with a GOP longer than 2 × fragment and audio present, the audio
+    path reaps the segment two seconds in; segment 2 is opened in the middle of the GOP and its
+    first video frame is not a key frame.  Replayed on the implementation by
+    corpus/C10/witnesses.case. -/
+theorem c10_audio_reap_witness :
+    (match Hls.writeFrames genCfg 1 8000 init longGopStream with
+     | some g =>
+       (match g.current with
+        | some s => s.seq == 2 && s.byAudio &&
+            (match videoOf genCfg s.frames with | v :: _ => !v.key | [] => false)
+        | none => false)
+     | none => false) = true := by
+  decide +kernel
+
+/-- Read stability under roll-over (storage LTS, every interleaving): with the regenerated fact
+    `memoryGetCopies = true`, a reader obtained by `Segment(seq)` while the file of `seq` holds the
+    bytes `x` delivers exactly `x` whenever it is read later — after ANY sequence of further
+    operations of the generator and of other clients (segments written, deleted, their pooled
+    buffers recycled and overwritten, other readers taken and read). -/
+theorem c10_read_stable (st : HlsStore.Store) (seq : Nat) (x : List UInt8)
+    (hx : HlsStore.content st seq = some x) (ops : List HlsStore.Op) :
+    let st1 := (HlsStore.step genCfg.getCopies st (.get seq)).1
+    let st2 := HlsStore.run genCfg.getCopies st1 ops
+    (HlsStore.step genCfg.getCopies st2 (.read st.readers.length)).2 = some x := by
+  have e : genCfg.getCopies = true := by decide
+  simp only [e]
+  have h1 := HlsStore.get_copies st seq x hx
+  have h2 := HlsStore.run_readers true ops _ _ _ h1
+  generalize HlsStore.run true (HlsStore.step true st (.get seq)).1 ops = st2 at h2
+  show (HlsStore.step true st2 (.read st.readers.length)).2 = some x
+  simp only [HlsStore.step, h2, HlsStore.readNow]
+
+/-- The behaviour before fix 934291d (`get` wrapping the pooled buffer itself): a client takes a
+    reader for segment 1, the playlist rolls over (segment 1 deleted, its buffer recycled for
+    segment 2), the client then reads the bytes of segment 2.  Reproduced on the implementation
+    by corpus/C10/witnesses.case (class read-not-stable). -/
+theorem c10_read_stable_alias_counterexample :
+    let ops : List HlsStore.Op := [.openSeg 1, .write 1 [1, 2, 3], .get 1, .delete 1, .openSeg 2, .write 2 [9, 9, 9]]
+    (HlsStore.step false (HlsStore.run false HlsStore.empty ops) (.read 0)).2 = some [9, 9, 9]
+    ∧ (HlsStore.step true (HlsStore.run true HlsStore.empty ops) (.read 0)).2 = some [1, 2, 3] := by
+  decide
+
+/-- Playlist privacy: `M3u8` renders into a pooled buffer and (fact `m3u8Copies = true`) returns a
+    private copy; the bytes handed to one caller are never changed by any later call.  Instance
+    of the storage LTS: render (open, write, get, delete→pool) twice; the first caller's bytes
+    stay `t1`.  With the aliasing return value (before fix e764d8f) the first caller reads the
+    second caller's playlist — including the second caller's token. -/
+theorem c10_m3u8_private (t1 t2 : List UInt8) :
+    let call (k : Nat) (t : List UInt8) : List HlsStore.Op := [.openSeg k, .write k t, .get k, .delete k]
+    (HlsStore.step genCfg.m3u8Copies (HlsStore.run genCfg.m3u8Copies HlsStore.empty (call 1 t1 ++ call 2 t2)) (.read 0)).2
+      = some t1 := by
+  have e : genCfg.m3u8Copies = true := by decide
+  simp only [e]
+  simp [HlsStore.run, HlsStore.step, HlsStore.empty, HlsStore.lookup, HlsStore.setAt, HlsStore.readNow]
+
+theorem c10_m3u8_alias_counterexample :
+    let call (k : Nat) (t : List UInt8) : List HlsStore.Op := [.openSeg k, .write k t, .get k, .delete k]
+    (HlsStore.step false (HlsStore.run false HlsStore.empty (call 1 [0x61, 0x61] ++ call 2 [0x62, 0x62])) (.read 0)).2
+      = some [0x62, 0x62] := by
+  decide
 
 /-- Bounded storage: at any time at most 3 finished segments and the open one exist; all other
     segments ever created are in `deleted` (file removed / buffer returned) or `dropped`. -/
